@@ -292,6 +292,7 @@ func (s *SrvConn) PeekPipeline() []redcon.Command { return nil }
 func (s *SrvConn) NetConn() net.Conn           { return s.client }
 func (s *SrvConn) Detach() redcon.DetachedConn {
 	s.detached = &Detached{SrvConn: s}
+	s.detached.init()
 	return s.detached
 }
 
@@ -301,12 +302,26 @@ func (s *SrvConn) Bytes() []byte { b := append([]byte{}, s.buf...); s.buf = s.bu
 // NewSrvConn makes a server-side connection without a client (raw command drivers).
 func NewSrvConn(remote string) *SrvConn { return &SrvConn{addr: remote} }
 
-// Detached is the DetachedConn handed to pubsub's background runner.
+// Detached is the DetachedConn handed to pubsub's background runner (a real goroutine that loops
+// on ReadCommand). The harness feeds it commands one at a time and waits until the runner asks for
+// the next one, i.e. until the previous command has been processed completely: the interaction is
+// deterministic although the runner is a goroutine of its own.
 type Detached struct {
 	*SrvConn
 	cmds     chan redcon.Command
+	idle     chan struct{}
+	closedCh chan struct{}
 	waitRead func(c *Conn)
 	gone     bool
+	closed   bool
+}
+
+func (d *Detached) init() {
+	if d.cmds == nil {
+		d.cmds = make(chan redcon.Command)
+		d.idle = make(chan struct{}, 1)
+		d.closedCh = make(chan struct{})
+	}
 }
 
 func (d *Detached) clientClosed() { d.gone = true }
@@ -318,9 +333,75 @@ func (d *Detached) Flush() error {
 	return nil
 }
 
+// ReadCommand is called by the background runner: it announces that the runner is idle and
+// blocks until the harness sends the next command or hangs up.
 func (d *Detached) ReadCommand() (redcon.Command, error) {
-	return redcon.Command{}, io.EOF
+	d.init()
+	select {
+	case d.idle <- struct{}{}:
+	default:
+	}
+	cmd, ok := <-d.cmds
+	if !ok {
+		return redcon.Command{}, io.EOF
+	}
+	return cmd, nil
 }
+
+// Close is called by the runner when it ends.
+func (d *Detached) Close() error {
+	d.init()
+	if !d.closed {
+		d.closed = true
+		close(d.closedCh)
+	}
+	return nil
+}
+
+// WaitIdle blocks until the runner waits for a command (it has started / finished the last one).
+func (d *Detached) WaitIdle() bool {
+	d.init()
+	select {
+	case <-d.idle:
+		return true
+	case <-d.closedCh:
+		return false
+	case <-time.After(10 * time.Second):
+		return false
+	}
+}
+
+// Send hands one command to the runner and waits until it has been processed.
+func (d *Detached) Send(args ...string) bool {
+	d.init()
+	cmd := redcon.Command{}
+	for _, a := range args {
+		cmd.Args = append(cmd.Args, []byte(a))
+	}
+	select {
+	case d.cmds <- cmd:
+	case <-d.closedCh:
+		return false
+	case <-time.After(10 * time.Second):
+		return false
+	}
+	return d.WaitIdle()
+}
+
+// HangUp closes the connection from the client side and waits for the runner's clean-up.
+func (d *Detached) HangUp() bool {
+	d.init()
+	close(d.cmds)
+	select {
+	case <-d.closedCh:
+		return true
+	case <-time.After(10 * time.Second):
+		return false
+	}
+}
+
+// DetachedConn returns the detached half of the connection (nil if the handler did not detach).
+func (s *SrvConn) DetachedConn() *Detached { return s.detached }
 
 // IsDetached reports whether the handler detached the connection (pub/sub).
 func (s *SrvConn) IsDetached() bool { return s.detached != nil }
